@@ -984,7 +984,10 @@ def run(ck, pid="C09"):
         "sources hold the documented data types (MT, B1 C1 I4 I8 U4 U8 R4 R8 X4 X8) with every array written; other ADF type strings are the _refuted witnesses",
         "a copy that returns an error (HDF5 cannot hold a typed node without dimensions; unresolvable link with follow_links) is outside the property",
         "cgnsdiff is judged on pairs whose links resolve in both files (it exits with an error otherwise); -c / -i / -t are outside the default options",
-        "ADF free-space / chunk tables and all of libhdf5 are tied by this differential run only"]
+        "ADF free-space / chunk tables and all of libhdf5 are tied by this differential run only",
+        "axioms: none for 16 theorems; C09_diff_tol_nan_refuted (outside the default options) uses Flocq binary64 and inherits "
+        "ClassicalDedekindReals.sig_forall_dec, ClassicalDedekindReals.sig_not_dec, "
+        "FunctionalExtensionality.functional_extensionality_dep, Classical_Prop.classic"]
     ck.cov["rule"] = ("seeded worlds of 1-3 files in one back end (random trees of 6-110 nodes, deep chains, wide parents, all ten types, payloads around "
                       "4096 / 100000 bytes, arrays re-dimensioned after a first write, deleted garbage, internal / external / chained / nested links, "
                       "optionally a dangling link) x destination ADF / HDF5 x follow on / off through cgio_copy_file (source open r and m), cg_save_as, "
